@@ -13,7 +13,7 @@ import os
 import pickle
 import re
 import struct
-from typing import Callable, Dict, List, Optional
+from typing import Callable, Dict, List, Optional, Union
 
 from jsonargparse import ActionConfigFile, ArgumentParser, Namespace, lazy_instance
 
@@ -27,6 +27,13 @@ ADDR = re.compile(r"0x[0-9a-fA-F]+")
 def _kind_order(kind):
     """step kinds in a signature: the ones a known finding is keyed by come first, so the 120 character cut keeps them"""
     return (0 if kind.startswith("print_shtab") else 1, kind)
+
+class PartOrFactory:
+    """a signature-derived parameter that takes an object or a factory of objects"""
+
+    def __init__(self, part: Union[zoo.Base, Callable[[int], zoo.Base]] = None, n: int = 0):
+        self.part, self.n = part, n
+
 
 def make_parser(variant, eoe, workdir):
     p = ArgumentParser(exit_on_error=eoe, prog="app", env_prefix="APP", default_config_files=[os.path.join(workdir, "defaults.yaml")] if variant["dcf"] else None)
@@ -43,6 +50,7 @@ def make_parser(variant, eoe, workdir):
     p.add_class_arguments(zoo.SubB, "grp")
     p.add_class_arguments(zoo.WithOptDC, "wod")
     p.add_argument("--cb", type=Callable[[int], zoo.Base])
+    p.add_class_arguments(PartOrFactory, "pf")
     if variant["links"]:
         p.add_argument("--src", type=int, default=2)
         p.add_argument("--dst", type=int)
@@ -209,7 +217,39 @@ def gen_history(rng, variant, maxlen):
     hist = []
     readers = [o for o in OBJECTS if all(isinstance(v, dict) and set(v) == {"init_args"} for v in o.values())]
     TEMPLATE[0] = None
-    if rng.random() < 0.15:
+    r0 = rng.random()
+    if r0 < 0.08:
+        TEMPLATE[0] = "print_config_with_exit0_option_then_parses"
+        # dedicated: a command line that asks for the config to be printed and then ends in another print-and-exit option
+        # (help of the parser, of a subcommand, of a class), followed by ordinary parses
+        tails = [["--help"], ["--model.help"], ["--model.help", "SubB"], ["--cb.help=SubA"], ["--opt.help=SubA"]]
+        first = ["--print_config"] + rng.choice(tails)
+        if variant["sub"] and rng.random() < 0.5:
+            first = rng.choice([["--print_config", "s1", "--help"], ["s1", "--print_config", "--help"], ["s1", "--print_config", "--m.help", "SubB"]])
+        hist.append(("parse_args", first))
+        for _ in range(rng.randrange(2, 5)):
+            r = rng.random()
+            if r < 0.4:
+                hist.append(("parse_args", rng.choice(GOOD_ARGV + (SUB_ARGV[:4] if variant["sub"] else []))))
+            elif r < 0.6:
+                hist.append(("parse_object", rng.choice(OBJECTS[:8]), False))
+            elif r < 0.75:
+                hist.append(("parse_string", json.dumps(rng.choice(OBJECTS[:8])), False))
+            elif r < 0.85:
+                hist.append(("parse_env", rng.choice(ENVS[:2])))
+            else:
+                hist.append(("parse_args", rng.choice(BAD_ARGV)))
+        return hist
+    if r0 < 0.16:
+        TEMPLATE[0] = "union_of_class_and_factory"
+        # dedicated: a parameter typed Union[Class, Callable[[int], Class]] given values only one of the members takes, in turn
+        only_factory = [["--pf.part=SubReq"], ["--pf.part", '{"class_path": "vf.fixtures.zoo.SubReq"}']]
+        only_object = [["--pf.part=SubReq", "--pf.part.need=4"], ["--pf.part=SubA", "--pf.part.a=3"], ["--pf.part", '{"class_path": "vf.fixtures.zoo.SubReq", "init_args": {"need": 2}}'], ["--pf.part.help", "SubReq"], ["--pf.part.help", "SubA"]]
+        both = [["--pf.part=SubA", "--pf.part.b=w"], ["--pf.n=3"]]
+        for _ in range(rng.randrange(3, 7)):
+            hist.append(("parse_args", rng.choice(rng.choice([only_factory, only_object, only_object, both]))))
+        return hist
+    if r0 < 0.31:
         TEMPLATE[0] = "help_then_readers"
         # dedicated: a help / print step (which renders defaults, also those of the default config files), then only steps
         # that read what the parser knows: a leftover of the rendering shows in the first of them that consults it
